@@ -2,9 +2,11 @@
 
 A  proof step: Rpft.Props.C10 (inert_rows, process_filter_active, nested_inline, last_wins_*,
    ignore_spares_templates, output_names_nodup, sheet_resolves_last, reader_order,
-   split_invariance, …).
+   split_invariance, read_padded / process_padded / padded_draft_inert: the meaning of a cell is its
+   trimmed text, …).
 B  tie: generated histories (1-4 workbooks, nested indexes, all row types, renames, duplicates,
-   ignore rows, draft, tags × tag filter, duplicated sheet names across workbooks) through the
+   ignore rows, draft, tags × tag filter, duplicated sheet names across workbooks, index cells with
+   surrounding ASCII / Unicode whitespace — the model reads the RAW cells) through the
    real ContentIndexParser / converters.create_flows vs the Lean model (`index.run`).
 C  direct oracle: the statement evaluated on the real output — an independent Python reading
    of the index (inline the nested indexes, drop inert rows, then per name "the last definition
@@ -26,7 +28,7 @@ import tempfile
 from .. import core, par
 
 MANIFEST = dict(
-    text="Proof: Lean theorems inert_rows / process_filter_active (draft and tag-filtered rows have no effect), nested_inline (a nested index is processed exactly as its rows in place), last_wins_campaign / _trigger / _template (the definition in effect is what the last row concerning the name left: a definition its content, an ignore_row nothing; templates are touched by template_definition rows only), last_wins_data (the data registry evolves as the C11 chain of the data_sheet rows), flow_rows_spec (surviving create_flow rows = those not named by a later ignore_row), ignore_spares_templates, output_names_nodup (+ first-position order), sheet_resolves_last, reader_order, split_invariance over a hand model of ContentIndexParser's index processing for all row histories (unbounded, induction over the history); tied to the code by generated multi-workbook histories run through the real ContentIndexParser and converters.create_flows (CSV / JSON / XLSX workbooks) with provenance-encoding sheet contents, and by an independent reference interpretation of the statement.",
+    text="Proof: Lean theorems inert_rows / process_filter_active (draft and tag-filtered rows have no effect), nested_inline (a nested index is processed exactly as its rows in place), last_wins_campaign / _trigger / _template (the definition in effect is what the last row concerning the name left: a definition its content, an ignore_row nothing; templates are touched by template_definition rows only), last_wins_data (the data registry evolves as the C11 chain of the data_sheet rows), flow_rows_spec (surviving create_flow rows = those not named by a later ignore_row), ignore_spares_templates, output_names_nodup (+ first-position order), sheet_resolves_last, reader_order, split_invariance, read_padded / process_padded / padded_draft_inert (an index row is read from its raw cells by str.strip / split_into_lists, so surrounding whitespace of any kind in a type / sheet_name / new_name / status / tags … cell changes nothing: `draft ` is a draft row) over a hand model of ContentIndexParser's index processing for all row histories (unbounded, induction over the history); tied to the code by generated multi-workbook histories run through the real ContentIndexParser and converters.create_flows (CSV / JSON / XLSX workbooks) with provenance-encoding sheet contents, and by an independent reference interpretation of the statement.",
     ref="§5 C10",
     note="Trusts: Lean kernel (axioms audited each run), the differential harness and Driver JSON codec, CPython dict/list semantics as modelled. Sheet contents are abstracted to their provenance; flow compilation itself is C02's subject. Nesting depth is bounded by fuel in the model (Python: recursion limit); cyclic indexes are not generated. TagMatcher position parameters: ASCII sign+digits only.",
     technique="Lean 4 proof (induction over the row history, fuel-monotone nested recursion, dict-as-association-list lemmas) + differential model/code correspondence on generated index histories",
@@ -49,6 +51,13 @@ DATA_HEADERS = ["ID", "v"]
 CAMPAIGN_HEADERS = ["offset", "unit", "event_type", "delivery_hour", "message", "relative_to", "start_mode", "flow"]
 TRIGGER_HEADERS = ["type", "keywords", "flow", "groups", "exclude_groups", "match_type"]
 DATA_IDS = ["a", "b", "c"]
+# what `str.strip()` removes (the cell parser trims every cell with it): re-derived from the interpreter in run()
+PY_WS = [chr(c) for c in (9, 10, 11, 12, 13, 28, 29, 30, 31, 32, 133, 160, 5760, 8192, 8193, 8194, 8195, 8196, 8197, 8198,
+                          8199, 8200, 8201, 8202, 8232, 8233, 8239, 8287, 12288)]
+COMMON_WS = [" ", " ", "\t", "\n", "\xa0"]       # what hand-edited spreadsheets typically carry
+# index columns whose cells may carry surrounding whitespace; the meaning of a cell is its trimmed text
+PAD_COLS = ["type", "sheet_name", "new_name", "data_sheet", "data_row_id", "group", "status", "tags.1", "tags.2"]
+XLSX_ILLEGAL = re.compile("[\x00-\x08\x0b\x0c\x0e-\x1f]")  # openpyxl refuses these in a cell
 
 
 # ------------------------------------------------------------------ generation
@@ -101,6 +110,47 @@ def plain_row(ty, sheet, **kw):
     row = {"type": ty, "sheet_name": [sheet], "new_name": "", "data_sheet": "", "data_row_id": "", "group": "", "status": "", "tags": ["", ""], "tpl_args": 0}
     row.update(kw)
     return row
+
+
+def gen_ws(rng) -> str:
+    n = rng.choice([1, 1, 1, 2, 3])
+    return "".join(rng.choice(COMMON_WS) if rng.random() < 0.5 else rng.choice(PY_WS) for _ in range(n))
+
+
+def gen_pad(rng, row) -> dict:
+    """surrounding whitespace for some cells of an index row: column -> [left, right]; a blank cell that gets
+    padded becomes a whitespace-only cell (= blank)"""
+    cols = [c for c in PAD_COLS if rng.random() < 0.3] or [rng.choice(PAD_COLS)]
+    pad = {}
+    for c in cols:
+        if c == "type" and row["type"] == "template_definition" and row["tpl_args"]:
+            # kept away from a defect of the unchanged code (reported, outside C10): the `template_arguments` column is
+            # routed by the RAW type cell (`row["type"] == "template_definition"` in header_name_to_field_name_with_context),
+            # so `template_definition ` loses its argument definitions
+            continue
+        side = rng.choice(["l", "r", "r", "lr"])
+        pad[c] = [gen_ws(rng) if "l" in side else "", gen_ws(rng) if "r" in side else ""]
+    return pad
+
+
+def add_padding(case, rng, p_case=0.5, p_row=0.15):
+    """in every second case the raw cells of some index rows get surrounding whitespace (the row's fields keep the
+    MEANING, `pad` the raw spelling); drawn after everything else so that the unpadded case of a seed stays what it was"""
+    if rng.random() >= p_case:
+        return
+    for wb in case["workbooks"]:
+        for _, sh in wb:
+            for r in sh.get("rows", []):
+                if rng.random() < p_row:
+                    r["pad"] = gen_pad(rng, r)
+
+
+def row_cells(r) -> list:
+    """the raw cells of an index row in the order of PAD_COLS"""
+    texts = [r["type"], ";".join(r["sheet_name"]), r["new_name"], r["data_sheet"], r["data_row_id"], r["group"],
+             r["status"], r["tags"][0], r["tags"][1]]
+    pad = r.get("pad", {})
+    return [pad[c][0] + t + pad[c][1] if c in pad else t for c, t in zip(PAD_COLS, texts)]
 
 
 def gen_case(rng: random.Random, malformed=False) -> dict:
@@ -164,6 +214,7 @@ def gen_case(rng: random.Random, malformed=False) -> dict:
             idx["rows"].insert(pos, plain_row("create_flow", "U0", data_sheet="NODATA"))
         else:
             idx["rows"].insert(pos, plain_row("create_flow", "T0", data_row_id="a"))
+    add_padding(case, random.Random(rng.getrandbits(48)))
     return case
 
 
@@ -177,8 +228,7 @@ def sheet_table(name, sh):
         rows = []
         for r in sh["rows"]:
             targs = f"x;;d{r['tpl_args']}|" if r["tpl_args"] else ""
-            rows.append([r["type"], ";".join(r["sheet_name"]), r["new_name"], r["data_sheet"], r["data_row_id"], r["group"],
-                         r["status"], r["tags"][0], r["tags"][1], targs])
+            rows.append(row_cells(r) + [targs])
         return INDEX_HEADERS, rows
     if name in S_NAMES:
         return DATA_HEADERS, [[i, f"Q{p}"] for i in sh["data_ids"]]
@@ -316,7 +366,7 @@ def write_workbooks(case, mode, tmp) -> list[str]:
                 ws = x.create_sheet(sn)
                 ws.append(list(headers))
                 for r in rows:
-                    ws.append([str(c) for c in r])
+                    ws.append([XLSX_ILLEGAL.sub("\u2009", str(c)) for c in r])  # another whitespace where XLSX has no spelling
             x.save(p)
         files.append(p)
     return files
@@ -354,11 +404,14 @@ def ref_interpret(case) -> dict:
             return False
         return all(not t or i not in pats or t in pats[i] for i, t in enumerate(r["tags"]))
 
+    in_effect = set()
+
     def inline(rows):
         out = []
         for r in rows:
             if not active(r):
                 continue
+            in_effect.add(id(r))
             if r["type"] == "content_index":
                 out += inline(resolve(r["sheet_name"][0])["rows"])
             else:
@@ -435,7 +488,7 @@ def ref_interpret(case) -> dict:
             tmpl[n] = [resolve(n)["prov"], 0]
     errors = sum(1 for r in hist if r["type"] == "bogus")
     return {"flows": [[n, v[0], v[1]] for n, v in flows.items()], "campaigns": camps, "triggers": trigs,
-            "templates": tmpl, "data": data, "errors": errors, "history": hist}
+            "templates": tmpl, "data": data, "errors": errors, "history": hist, "in_effect": in_effect}
 
 
 # ------------------------------------------------------------------ one case
@@ -448,7 +501,9 @@ def model_request(case):
         for n, sh in wb:
             body = {"prov": sh["prov"]}
             if "rows" in sh:
-                body["rows"] = sh["rows"]
+                # the model READS the raw cells (RawIndexRow.read: str.strip / split_into_lists)
+                body["rows"] = [{"cells": dict(zip(PAD_COLS[:7], row_cells(r)[:7]), tags=row_cells(r)[7:]), "tpl_args": r["tpl_args"]}
+                                for r in sh["rows"]]
             if "data_ids" in sh:
                 body["data"] = [[i, sh["prov"]] for i in sh["data_ids"]]
             sheets.append([n, body])
@@ -543,6 +598,7 @@ def classify(case, ref):
         st.append("tag_filter.none")
     if any(r["type"] == "content_index" for r in allrows):
         st.append("nested_index")
+    st += sorted(pad_strata(allrows, ref["in_effect"]))
     nidx = sum(1 for wb in case["workbooks"] for n, _ in wb if n == "content_index")
     if nidx > 1:
         st.append("several_top_level_indexes")
@@ -587,6 +643,30 @@ def classify(case, ref):
         st.append("active_copy_not_in_last_workbook")
     if any(sum(n in wb for wb in wbs) >= 2 for n in used):
         st.append("used_sheet_has_several_copies")
+    return st
+
+
+def pad_strata(allrows, active) -> set:
+    """which raw spellings of index cells the case exercises (cells with surrounding whitespace); active = ids of the
+    rows in effect (reached, not draft, passing the tag filter)"""
+    st = set()
+    for r in allrows:
+        for col, (left, right) in r.get("pad", {}).items():
+            st.add("padded_cell")
+            st.add("padded_cell.column." + col)
+            values = {"type": r["type"], "sheet_name": ";".join(r["sheet_name"]), "new_name": r["new_name"], "data_sheet": r["data_sheet"],
+                      "data_row_id": r["data_row_id"], "group": r["group"], "status": r["status"], "tags.1": r["tags"][0], "tags.2": r["tags"][1]}
+            st.add("padded_cell.text" if values[col] else "padded_cell.whitespace_only")
+            if left:
+                st.add("padded_cell.leading")
+            if right:
+                st.add("padded_cell.trailing")
+            for ch in left + right:
+                st.add("padded_cell.ws." + ("space" if ch == " " else "ascii_control" if ord(ch) < 128 else "unicode"))
+            if col in ("status", "tags.1", "tags.2") and values[col]:
+                # the cell decides whether the row is in effect
+                st.add("padded_cell.on_row_filter." + ("row_in_effect" if id(r) in active else "row_not_in_effect"))
+            st.add("padded_cell.row_in_effect" if id(r) in active else "padded_cell.row_not_in_effect")
     return st
 
 
@@ -675,6 +755,19 @@ def shrink(v, budget=80):
             r = fails(c)
             if r:
                 case, best, changed = c, r, True
+    # raw spellings: drop the surrounding whitespace cell by cell where the failure does not need it
+    for wi, wb in enumerate(case["workbooks"]):
+        for si, (n, sh) in enumerate(wb):
+            for ri, row in enumerate(sh.get("rows", [])):
+                for col in list(row.get("pad", {})):
+                    c = json.loads(json.dumps(case))
+                    rr = c["workbooks"][wi][si][1]["rows"][ri]
+                    del rr["pad"][col]
+                    if not rr["pad"]:
+                        del rr["pad"]
+                    r = fails(c)
+                    if r:
+                        case, best = c, r
     return best
 
 
@@ -688,7 +781,10 @@ REQUIRED_STRATA = [
     "duplicate_flow_definition", "renamed_flow", "bulk_flow", "duplicate_campaign_definition", "duplicate_trigger_definition",
     "duplicate_template_definition", "sheet_name_in_several_workbooks", "active_copy_not_in_last_workbook",
     "used_sheet_has_several_copies", "mode.mem", "mode.csv", "mode.json",
-]
+    "padded_cell.text", "padded_cell.whitespace_only", "padded_cell.leading", "padded_cell.trailing", "padded_cell.ws.space",
+    "padded_cell.ws.ascii_control", "padded_cell.ws.unicode", "padded_cell.on_row_filter.row_in_effect",
+    "padded_cell.on_row_filter.row_not_in_effect", "padded_cell.row_in_effect", "padded_cell.row_not_in_effect",
+] + ["padded_cell.column." + c for c in PAD_COLS]
 
 
 def _fold(ck, results, kind):
@@ -715,6 +811,9 @@ def run(ck: core.Check):
         "2 trigger sheets, anchor; every copy has its own provenance number in its content), 1-3 nested index sheets (acyclic, "
         "copies in several workbooks), a content_index in 1..all workbooks with 0-9 random rows each (all 7 row types + an invalid "
         "one, renames, duplicates, ignore rows, draft/released status, two tag columns) and one of 15 tag-filter settings; "
+        "in every second case about one index row in seven carries surrounding whitespace (1-3 characters of the 29 that str.strip removes, ASCII and "
+        "Unicode, leading / trailing / both; a padded blank cell is whitespace-only) in some of its type / sheet_name / new_name / "
+        "data_sheet / data_row_id / group / status / tags cells — the meaning of a cell is its trimmed text; "
         "non-trivial = every case (each has ≥ 4 active rows); distinct = distinct JSON of the case"
     )
     ck.assumptions = [
@@ -728,6 +827,9 @@ def run(ck: core.Check):
     if not core.DRIVER_BIN.exists():
         raise core.Infra("driver not built:\n" + ck.lean.log[-2000:])
     import rpft.parsers.creation.contentindexparser  # noqa: F401
+
+    if [c for c in map(chr, range(0x110000)) if c.isspace()] != PY_WS or any(c.strip() for c in PY_WS):
+        raise core.Infra("generator self-check: PY_WS is not what this interpreter's str.strip() removes")
 
     quick = ck.tier == "quick"
     n_valid = 8000 if quick else 60000
